@@ -780,7 +780,7 @@ End Outline.
 
 (* which variant the deployed code is (ONE-LINE SWITCH after the fix is applied to /repo): the driver compares the
    implementation with `find_all_symbol deployed_fixed` *)
-Definition deployed_fixed : bool := false.
+Definition deployed_fixed : bool := true.
 
 (* ------------------------------------------------------------------ workspace/symbol *)
 Record wsym := mkW { w_name : bytes; w_fn : bool; w_loc : loc }.
